@@ -249,7 +249,7 @@ def file_side(hw, old, new, add_comments):
 def device_side(hw, old, new, add_comments):
     from annet import api
     dev = types.SimpleNamespace(hw=hw, hostname="dev", fqdn="dev.example", id=1)
-    return api._diff_and_patch(dev, old, new, None, None, add_comments)
+    return env.diff_and_patch(dev, old, new, None, None, add_comments)
 
 
 _PARAM = re.compile(r"\s%[a-zA-Z_]")
